@@ -373,10 +373,26 @@ def random_shard(args):
     return agg
 
 
+def named_args_shard(args):
+    """Every argument bound by name (reversed order, and positional-then-named) must give what the positional call gives:
+    documented parameter names, driver/stdparams.py."""
+    import stdparams
+    from tablecheck import run_cases as _run_cases
+    agg = Agg()
+    ev = Ev(agg)
+    try:
+        _run_cases(agg, ev, stdparams.named_cases(['__compare', '__compare_array', '__array_less', '__array_greater', '__array_less_or_equal', '__array_greater_or_equal', 'equals', 'assertEqual']))
+    finally:
+        ev.close()
+    return agg
+
+
 def run(tier, seed):
     t0 = time.time()
     quick = tier != "thorough"
     total = Agg()
+    for a in common.pmap(named_args_shard, [(seed,)]):
+        total.merge(a)
     P = pool()
     n = len(P)
     allpairs = [(i, j) for i in range(n) for j in range(n)]
@@ -402,6 +418,6 @@ def run(tier, seed):
             "the operands reach the operators in rotating forms (locals, inline literals, literal on one side only, parameters, array "
             "elements, object fields, one aliased value for reflexive pairs); sampled triples for transitivity evaluated inside "
             "Jsonnet; random values with near-equal perturbations; lazily failing tails beyond the deciding "
-            "position. distinct_nontrivial = distinct (family, source) programs compared.")
+            "position. documented parameter names: every argument bound by name (reversed order, and positional-then-named) gives what the positional call gives (driver/stdparams.py). distinct_nontrivial = distinct (family, source) programs compared.")
     return common.finish(PROP, tier, seed, total, rule, t0, extra={"pool": n, "all_pairs": exhaustive},
                          assumptions=["model: equality = same JSON value on visible fields, -0 == 0; order = numbers, strings by code point, arrays lexicographic"])
